@@ -10,6 +10,12 @@ CLAIMED = {
  'C02': dict(text="In every model reset is the initial state, hence (theorem, all histories) continuation traces after a reset equal those of a new instance. That the code's reset() reaches a state equivalent to a fresh instance is established per run by the correspondence check and a side-by-side monitor with resets placed in every detector phase.",
              note="Trusted: as C01. The theorem is definitional in the model; the weight is on the correspondence (state after reset compared field by field and on all later outputs).",
              tech="Coq proof (reset = init, trace equality) + correspondence/monitor with resets in every phase"),
+ 'C03': dict(text="DDM and ECDD-WT verdicts proved equal to their non-incremental published rules (batch mean, earliest argmin of p+s, closed-form EWMA, Ross polynomial typed from the paper) for all streams and configurations over R; EDDM statistics proved equal to batch mean/SSD/std of the error distances and each step's decision characterised by the ratio rule; RDDM proved to give DDM's verdicts until its first event (every number system) and to keep the running mean of a suffix that grows by one and is cut back only right after an event to <= min_concept_size+1 values. Code tied by exhaustive 0/1 streams (length 11/14) against an independent Python transcription of the rules, plus model correspondence.",
+             note="Trusted: Coq kernel; Reals axioms; numerically tied comparisons are excluded from the run-time comparison as the property allows.",
+             tech="Coq proof (refinement to non-incremental specifications; simulation RDDM->DDM; suffix invariant via ring-buffer refinement) + correspondence check"),
+ 'C04': dict(text="HDDM-A/W models tied to the code on all 0/1 streams of length 10 (12 thorough) and random [0,1] streams in both modes; monitors: verdict vs two-sample Hoeffding / McDiarmid bound on the detector's own cut-point samples, one-sided alarms subset of two-sided, mirror symmetry x->1-x, rise/drop family within the formula's delay bound. Coq: rule equivalence, mirror symmetry and extension theorems (Proofs/HDDMR.v).",
+             note="Trusted: Coq kernel; Reals axioms; ln is a ~1 ulp Gallina implementation in the binary64 run; verdict disagreements are accepted as near ties only if the model with ln perturbed by 2^-40 reproduces the code.",
+             tech="Coq proof (algebraic equivalence, simulation, mirror bisimulation) + correspondence check and metamorphic monitors"),
  'C05': dict(text="ADWIN model (rows of buckets, compress cascade, delete, eps_cut scan, shrink loop on fuel) tied to the code after every update (width, total, variance, row lengths, drift); monitor recomputes the window from the raw stream and checks suffix-window, bucket sizes, shrink-only-at-check, drift-iff-dropped, justified shrink, quiet after check. Structural theorems (warm-up, drift only at checks) proved; representation invariant in progress.",
              note="Trusted: as C01; R theorems do not bound binary64 downdating error (monitor uses tolerance).",
              tech="Coq proof (structural + representation lemmas) + per-update correspondence and window recomputation"),
